@@ -80,6 +80,7 @@ Definition setup_anon (su : list (string * option (list string))) : option (list
 Definition mj_setup (su : option (list (string * option (list string)))) : json :=
   match su with
   | None => JNull
+  | Some [] => JNull                      (* an empty setup marshals like a nil one *)
   | Some l => match setup_anon l with
               | Some vs => jstrs vs
               | None => JObj (sort_keys (map (fun kv => (fst kv, mj_strs_opt (snd kv))) l))
